@@ -855,8 +855,10 @@ func (w *Reconciler) handleTTLAfterFinished(
 		return nil
 	}
 
-	// Not yet expired.
-	if rj.Status.Condition.Finished.FinishTimestamp.Add(ttl).After(ktime.Now().Time) {
+	// Not yet expired, come back when it is. The TTL may come from the default in the
+	// dynamic config, in which case no sync was scheduled when the Job finished.
+	if expiry := rj.Status.Condition.Finished.FinishTimestamp.Add(ttl); expiry.After(ktime.Now().Time) {
+		w.enqueueAfter(rj, "ttl_seconds_after_finished", time.Until(expiry))
 		return nil
 	}
 
